@@ -12,7 +12,8 @@ from ref import tensors_ref as R
 
 PID = "C11"
 RULE = (
-    "basis-exhaustive: the 21 symmetric unit Voigt matrices, all 210 pairwise sums (linearity) and "
+    "basis-exhaustive: the 21 symmetric unit Voigt matrices, all 210 pairwise sums (linearity; each "
+    "whole-number letter also handed over as int64, negated int64 and float32 arrays) and "
     "generic dense letters (one fixed, the rest derived from VERIF_SEED), each evaluated on all 81 "
     "(p,q,r,s) and all 36 (i,j) index tuples; the same alphabet in 21-vector space (21 unit vectors, "
     "210 sums, generic letters); the 81 unit 4th-order tensors symmetrised over the minor/major index "
@@ -377,12 +378,29 @@ def run_case(key):
 # ------------------------------------------------------------------ 6x6 <-> 3x3x3x3 <-> 21
 
 
-def voigt_maps(cx, name, m):
-    """All matrix-side maps on one 6x6 letter; returns dict of outputs (None where unusable)."""
+_DT = None  # dtype in which the 6x6 letter is handed to the matrix-side maps (None: float64)
+
+
+def cm(a):
+    return c(a) if _DT is None else np.array(a, dtype=_DT, order="C", copy=True)
+
+
+def voigt_maps(cx, name, m, dt=None):
+    """All matrix-side maps on one 6x6 letter; returns dict of outputs (None where unusable).
+    dt: hand the (whole-number) letter over as an array of that dtype."""
+    global _DT
+    _DT = dt
+    try:
+        return _voigt_maps(cx, name, m)
+    finally:
+        _DT = None
+
+
+def _voigt_maps(cx, name, m):
     t_ref = R.to_tensor(m)
     scale = max(np.abs(m).max(), 1e-300)
     out = {"ten": None, "d": None, "v": None, "vec": None}
-    ten = cx.arr("voigt_to_elastic_tensor", cx.call("voigt_to_elastic_tensor", c(m), letter=name), (3, 3, 3, 3), letter=name)
+    ten = cx.arr("voigt_to_elastic_tensor", cx.call("voigt_to_elastic_tensor", cm(m), letter=name), (3, 3, 3, 3), letter=name)
     if ten is not None:
         out["ten"] = ten
         # every one of the 81 index tuples against the written-out Voigt table
@@ -429,7 +447,7 @@ def voigt_maps(cx, name, m):
         else:
             cx.check("index36", True)
     # contractions
-    dec = cx.call("voigt_decompose", c(m), letter=name)
+    dec = cx.call("voigt_decompose", cm(m), letter=name)
     if dec is not None:
         ok = isinstance(dec, tuple) and len(dec) == 2
         cx.check("shape_finite", ok, {"type": type(dec).__name__}, dedupe="voigt_decompose_tuple", fn="voigt_decompose", letter=name)
@@ -456,7 +474,7 @@ def voigt_maps(cx, name, m):
                     letter=name,
                 )
     # 21-vector
-    vec = cx.arr("voigt_matrix_to_vector", cx.call("voigt_matrix_to_vector", c(m), letter=name), (21,), letter=name)
+    vec = cx.arr("voigt_matrix_to_vector", cx.call("voigt_matrix_to_vector", cm(m), letter=name), (21,), letter=name)
     if vec is not None:
         out["vec"] = vec
         nt = R.frob(t_ref)
@@ -499,6 +517,12 @@ def run_voigt(key):
         if out["ten"] is not None and out["vec"] is not None:
             cx.res["outcomes"].append(digest(np.round(out["ten"], 9), np.round(out["vec"], 9)))
         parts = name.split("+")
+        if all(a[0] == "e" for a in parts):
+            # whole-number letters handed over as int64 / float32 arrays (legal ndarrays):
+            # same clauses, the reference is evaluated on the float64 values
+            for tag, dt, mm in (("i64", np.int64, m), ("i64neg", np.int64, -2.0 * m), ("f32", np.float32, m)):
+                voigt_maps(cx, name + "@" + tag, mm, dt=dt)
+                cx.res["states"] += 1
         if len(parts) > 1:
             scale = max(np.abs(m).max(), 1e-300)
             for fld, clause in (
@@ -530,7 +554,7 @@ def vector_maps(cx, name, x):
         nt = R.frob(R.to_tensor(m))
         nv = float(np.sqrt(np.dot(x, x)))
         cx.check("norm_vector_to_matrix", abs(nv - nt) <= TOL_LIN * max(nv, 1e-300), {"vector_norm": nv, "tensor_norm": nt}, letter=name)
-        xb = cx.arr("voigt_matrix_to_vector", cx.call("voigt_matrix_to_vector", c(m), letter=name), (21,), letter=name)
+        xb = cx.arr("voigt_matrix_to_vector", cx.call("voigt_matrix_to_vector", cm(m), letter=name), (21,), letter=name)
         if xb is not None:
             err = np.abs(xb - x)
             k = int(np.argmax(err))
@@ -838,6 +862,7 @@ def run_rotate(key):
     nr = len(names)
     ref = R.rotate_many(t, rs)
     outs = []
+    whole = bool(np.array_equal(t, np.rint(t)))
     cx.res["states"] += 1
     for a in range(nr):
         o = cx.arr("rotate", cx.call("rotate", c(t), c(rs[a]), letter=name, R=names[a]), (3, 3, 3, 3), letter=name, R=names[a])
@@ -858,6 +883,13 @@ def run_rotate(key):
             letter=name,
             R=names[a],
         )
+        if whole:
+            # the same whole-number tensor handed over as an int64 / float32 array
+            for tag, dt in (("i64", np.int64), ("f32", np.float32)):
+                oi = cx.arr("rotate", cx.call("rotate", np.array(t, dtype=dt), c(rs[a]), letter=name + "@" + tag, R=names[a]), (3, 3, 3, 3), letter=name + "@" + tag, R=names[a])
+                if oi is not None:
+                    ei = float(np.abs(oi - ref[a]).max())
+                    cx.check("rotate_law", ei <= TOL_ROT * scale, {"max_abs_err": ei}, letter=name + "@" + tag, R=names[a])
         no = R.frob(o)
         cx.check("rotate_norm", abs(no - nt) <= TOL_ROT * scale, {"norm_in": nt, "norm_out": no}, letter=name, R=names[a])
         if ident:
